@@ -146,6 +146,75 @@ func callsMethod(fd *ast.FuncDecl, name string) bool {
 	return found
 }
 
+func countCalls(fd *ast.FuncDecl, name string) (n int, loops int) {
+	if fd == nil || fd.Body == nil {
+		return 0, 0
+	}
+	ast.Inspect(fd.Body, func(x ast.Node) bool {
+		switch v := x.(type) {
+		case *ast.CallExpr:
+			if id, ok := v.Fun.(*ast.Ident); ok && id.Name == name {
+				n++
+			}
+		case *ast.ForStmt, *ast.RangeStmt:
+			loops++
+		}
+		return true
+	})
+	return
+}
+
+// assignsNil reports whether fd contains `<x>.<field> = nil`.
+func assignsNil(fd *ast.FuncDecl, field string) bool {
+	found := false
+	if fd == nil || fd.Body == nil {
+		return false
+	}
+	ast.Inspect(fd.Body, func(x ast.Node) bool {
+		as, ok := x.(*ast.AssignStmt)
+		if !ok || len(as.Lhs) != 1 || len(as.Rhs) != 1 {
+			return true
+		}
+		se, ok1 := as.Lhs[0].(*ast.SelectorExpr)
+		id, ok2 := as.Rhs[0].(*ast.Ident)
+		if ok1 && ok2 && se.Sel.Name == field && id.Name == "nil" {
+			found = true
+		}
+		return true
+	})
+	return found
+}
+
+// methodsCalledOn lists the method names fd calls on the identifier `recv`.
+func methodsCalledOn(fd *ast.FuncDecl, recv string) []string {
+	var out []string
+	if fd == nil || fd.Body == nil {
+		return nil
+	}
+	ast.Inspect(fd.Body, func(x ast.Node) bool {
+		if ce, ok := x.(*ast.CallExpr); ok {
+			if se, ok := ce.Fun.(*ast.SelectorExpr); ok {
+				if id, ok := se.X.(*ast.Ident); ok && id.Name == recv {
+					out = append(out, se.Sel.Name)
+				}
+			}
+		}
+		return true
+	})
+	return out
+}
+
+// genC34 writes Gen/StreamC34.lean: structure of the WriteTo-based chunk framing.
+func genC34(root *pkgInfo, out string) {
+	var b bytes.Buffer
+	b.WriteString("-- GENERATED by fhextract from /repo/http.go; do not edit.\nnamespace Fh.Gen\n\n")
+	fd := root.funcDecl("chunkedBodyWriter", "Write")
+	n, loops := countCalls(fd, "writeChunk")
+	fmt.Fprintf(&b, "/-- (*chunkedBodyWriter).Write: number of writeChunk call sites, number of loops (one write = one chunk) -/\ndef cbwWriteChunkCalls : Nat := %d\ndef cbwLoops : Nat := %d\n\n", n, loops)
+	b.WriteString("end Fh.Gen\n")
+	writeIfChanged(filepath.Join(out, "StreamC34.lean"), b.Bytes())
+}
+
 func genC22(repo string, root *pkgInfo, out string) {
 	var b bytes.Buffer
 	b.WriteString("-- GENERATED by fhextract from /repo (compress.go, brotli.go, zstd.go, header.go, server.go, stackless/); do not edit.\nnamespace Fh.Gen\n\n")
@@ -230,6 +299,24 @@ func genC22(repo string, root *pkgInfo, out string) {
 	fmt.Fprintf(&b, "/-- copyBuffer's loop handles `nr > 0` before `er != nil` -/\ndef copyBufferReadBeforeErr : Bool := %v\n\n", readBeforeErr(root.funcDecl("", "copyBuffer")))
 	fmt.Fprintf(&b, "/-- plain functions called by copyBodyStream / copyZeroAlloc -/\ndef calls_copyBodyStream : List String := %s\ndef calls_copyZeroAlloc : List String := %s\n\n",
 		leanStrList(calledFuncs(root.funcDecl("", "copyBodyStream"))), leanStrList(calledFuncs(root.funcDecl("", "copyZeroAlloc"))))
+	// buffered bodies: after the body was replaced by its compressed form, bodyRaw must be cleared (bodyBytes() prefers it):
+	// in the *Body function itself or in a Response method it calls
+	b.WriteString("/-- (function, clears resp.bodyRaw after swapping in the compressed buffer) -/\ndef compressBodyClearsRaw : List (String × Bool) := [")
+	for i, x := range []string{"gzipBody", "deflateBody", "brotliBody", "zstdBody"} {
+		fd := root.funcDecl("Response", x)
+		ok := assignsNil(fd, "bodyRaw")
+		for _, m := range methodsCalledOn(fd, "resp") {
+			if m != "bodyBytes" && assignsNil(root.funcDecl("Response", m), "bodyRaw") {
+				ok = true
+			}
+		}
+		if i > 0 {
+			b.WriteString(", ")
+		}
+		fmt.Fprintf(&b, "(%q, %v)", x, ok)
+	}
+	b.WriteString("]\n\n")
+	genC34(root, out)
 	b.WriteString("end Fh.Gen\n")
 	writeIfChanged(filepath.Join(out, "Compress.lean"), b.Bytes())
 }
